@@ -144,3 +144,83 @@ def assign_value(rhs, vars=()):
         return None
     v = lstrip_blank(strip_comment(rhs))
     return expand(v, vars)
+
+
+# ----------------------------------------------------------------- names in rule lines
+
+GLOBCH = '*?['
+
+
+def rule_words(seg, position, vars=()):
+    """File names GNU Make 4.3 derives from `seg`, the text of the target list (position
+    'target', up to but not including the ':' that ends it) or of a prerequisite list (position
+    'prereq') of an explicit rule.  Returns the list of names, or None whenever Make would do
+    anything other than read a plain list of literal file names: comment, variable reference,
+    recipe/assignment/static-pattern syntax, pattern rule, order-only separator, tilde or wildcard
+    expansion (whose result depends on the directory contents), archive member syntax.
+
+    Rules modelled (read.c: find_map_unquote / find_percent / parse_file_seq, validated against
+    /usr/bin/make): variables are expanded first ($$ -> $); a run of k backslashes before a stop
+    character (blank, ':', '#', and '%' in targets, '|' in prerequisites) is halved and, if k is
+    odd, makes that character literal; backslashes before anything else stay; blanks separate
+    words."""
+    e = expand(seg, vars)
+    if e is None:
+        return None
+    stops = ' \t:#%' if position == 'target' else ' \t:#|'
+    words = []
+    cur = None
+    i = 0
+    n = len(e)
+    while i < n:
+        c = e[i]
+        if c == ';' or c == '=':
+            return None
+        if c == '\\':
+            j = i
+            while j < n and e[j] == '\\':
+                j += 1
+            k = j - i
+            if j < n and e[j] == '\t':
+                return None        # backslash-TAB is not an escaped blank for Make
+            if j < n and e[j] in stops:
+                cur = (cur or '') + '\\' * (k // 2)
+                if k % 2 == 1:
+                    cur += e[j]
+                    i = j + 1
+                else:
+                    i = j          # the stop character acts as itself
+                continue
+            if j >= n:
+                return None        # trailing backslash: would swallow what follows
+            cur = (cur or '') + '\\' * k
+            i = j
+            continue
+        if c == ' ' or c == '\t':
+            if cur is not None:
+                words.append(cur)
+                cur = None
+            i += 1
+            continue
+        if c in stops:
+            return None            # unescaped ':', '#', '%' (target) or '|' (prerequisite)
+        cur = (cur or '') + c
+        i += 1
+    if cur is not None:
+        words.append(cur)
+    for w in words:
+        if w[0] == '~':
+            return None
+        if w.strip(' ') == '':
+            return None            # a name made of blanks only is not kept apart by Make
+        if position == 'target' and w[-1] == ' ':
+            return None            # an escaped blank at the end of a target word swallows the
+                                   # following separator (names ending in a blank: unrepresentable)
+        for ch in w:
+            if ch in GLOBCH:
+                return None
+        if '(' in w and w[-1] == ')':
+            return None
+    if position == 'target' and words and words[-1][-1] == '&':
+        return None                # 'a&:' is the grouped-target separator
+    return words
